@@ -27,7 +27,7 @@ OUT=$VERIF/build/lib-$H/$VARIANT
 mkdir -p "$VERIF/build"
 exec 9>"$VERIF/build/.lock-$H-$VARIANT"
 flock 9
-if [ -f "$OUT/libsci.a" ] && [ -f "$OUT/.ok" ]; then echo "$OUT"; touch "$OUT/.ok"; exit 0; fi
+if [ -f "$OUT/libsci.a" ] && [ -f "$OUT/.ok" ]; then echo "$OUT"; touch "$OUT/.ok" "$VERIF/build/lib-$H/.used"; exit 0; fi
 rm -rf "$OUT"; mkdir -p "$OUT/obj" "$OUT/inc"
 
 maj=$(sed -n 's/^set(VERSION_MAJOR \([0-9]*\)).*/\1/p' "$REPO/CMakeLists.txt"); min=$(sed -n 's/^set(VERSION_MINOR \([0-9]*\)).*/\1/p' "$REPO/CMakeLists.txt"); pat=$(sed -n 's/^set(VERSION_PATCH \([0-9]*\)).*/\1/p' "$REPO/CMakeLists.txt")
@@ -48,6 +48,9 @@ ar rcs "$OUT/libsci.a" "$OUT"/obj/*.o
 # library-object undefined symbols (for the synchronisation whitelist)
 nm -u "$OUT"/obj/*.o | awk '/ U /{print $2}' | sort -u > "$OUT/undefined.txt"
 touch "$OUT/.ok"
-# garbage-collect all but the 3 newest library builds
-ls -dt "$VERIF"/build/lib-*/ 2>/dev/null | tail -n +4 | xargs -r rm -rf
+# garbage-collect library builds: keep the 3 most recently used and anything used in the last 45 minutes
+touch "$VERIF/build/lib-$H/.used"
+ls -t "$VERIF"/build/lib-*/.used 2>/dev/null | tail -n +4 | while read u; do
+  if [ -n "$(find "$u" -mmin +45 2>/dev/null)" ]; then rm -rf "$(dirname "$u")"; fi
+done
 echo "$OUT"
